@@ -103,12 +103,12 @@ MIN_COUNTERS = {
                  'histories_with_node_id_wrap_configuration': 10_000,
                  'stream_cases_with_chunks_inside_block': 400,
                  'stream_cases_with_chunks_outside_block': 400,
-                 'calls_on_freed_objects_checked': 100_000,
-                 'as_map_after_free_with_cached_symbol_checked': 10_000,
-                 'return_values_checked': 100_000,
-                 'map_symbol_mentions_checked': 40_000,
+                 'calls_on_freed_objects_checked': 40_000,
+                 'as_map_after_free_with_cached_symbol_checked': 6000,
+                 'return_values_checked': 80_000,
+                 'map_symbol_mentions_checked': 50_000,
                  'freed_object_in_value_slot_checked': 8000,
-                 'ops_on_freed_nodes_checked': 30_000,
+                 'ops_on_freed_nodes_checked': 20_000,
                  'oracle_selftests': 1},
 }
 
